@@ -176,7 +176,7 @@ def render_module(spec, m: int, src_value=None) -> str:
         beh = t.get("beh", "ok")
         setup_fault = t.get("setup_fault")          # optional: "state" | "hash" | "marker" (C08 campaign)
         body_beh = "ok" if beh in ("loadfail", "savefail") else beh
-        faulty_dep = deps[0] if deps and (beh == "loadfail" or setup_fault == "state") else None
+        faulty_dep = t.get("faulty_dep", deps[0]) if deps and (beh == "loadfail" or setup_fault == "state") else None
         if faulty_dep is not None or setup_fault == "hash":
             style = "annotated"
         if beh == "savefail" and prods:
